@@ -1773,7 +1773,7 @@ MHD_str_pct_decode_strict_n_ (const char *pct_encoded,
       const char chr = pct_encoded[r];
       if ('%' == chr)
       {
-        if (2 > pct_encoded_len - r)
+        if (3 > pct_encoded_len - r)
           return 0;
         else
         {
@@ -1805,7 +1805,7 @@ MHD_str_pct_decode_strict_n_ (const char *pct_encoded,
       return 0;
     if ('%' == chr)
     {
-      if (2 > pct_encoded_len - r)
+      if (3 > pct_encoded_len - r)
         return 0;
       else
       {
@@ -1853,7 +1853,7 @@ MHD_str_pct_decode_lenient_n_ (const char *pct_encoded,
       const char chr = pct_encoded[r];
       if ('%' == chr)
       {
-        if (2 > pct_encoded_len - r)
+        if (3 > pct_encoded_len - r)
         {
           if (NULL != broken_encoding)
             *broken_encoding = true;
@@ -1897,7 +1897,7 @@ MHD_str_pct_decode_lenient_n_ (const char *pct_encoded,
       return 0;
     if ('%' == chr)
     {
-      if (2 > pct_encoded_len - r)
+      if (3 > pct_encoded_len - r)
       {
         if (NULL != broken_encoding)
           *broken_encoding = true;
